@@ -160,4 +160,121 @@ func Compare
 property C01: cisdigit, cisalpha, order, verrevcmp, Compare,
   lemma val_nonneg, lemma val_mono, lemma peel_zero, lemma longer_wins
 
+// ---------- C02: the specification is a total preorder ----------
+
+auto lemma vcmp_range(a string, i int, b string, j int)
+  ensures -1 <= vcmp(a, i, b, j) && vcmp(a, i, b, j) <= 1
+  decreases max(len(a) - i, 0) + max(len(b) - j, 0)
+  trigger vcmp(a, i, b, j)
+  { if 0 <= i && i <= len(a) && 0 <= j && j <= len(b) && !(i >= len(a) && j >= len(b)) {
+      vcmp_range(a, de(a, nde(a, i)), b, de(b, nde(b, j))) } }
+
+lemma lex_refl(a string, i int, ie int)
+  ensures lex(a, i, ie, a, i, ie) == 0
+  decreases max(ie - i, 0)
+  { if i < ie { lex_refl(a, i+1, ie) } }
+
+lemma lex_antisym(a string, i int, ie int, b string, j int, je int)
+  ensures lex(a, i, ie, b, j, je) == -lex(b, j, je, a, i, ie)
+  decreases max(ie - i, 0) + max(je - j, 0)
+  { if !(i >= ie && j >= je) && wt(a, i, ie) == wt(b, j, je) { lex_antisym(a, i+1, ie, b, j+1, je) } }
+
+// an exhausted run compares like any other exhausted run
+lemma lex_exhausted(a string, i int, ie int, c string, k int, ke int, b string, j int, je int)
+  requires i >= ie && k >= ke
+  ensures lex(a, i, ie, b, j, je) == lex(c, k, ke, b, j, je)
+  decreases max(je - j, 0)
+  { if j < je { lex_exhausted(a, i+1, ie, c, k+1, ke, b, j+1, je) } }
+
+// order-theoretic summary of three comparison results
+pure func ltq(rab int, rbc int, rac int) bool {
+  (rab <= 0 && rbc <= 0 ==> rac <= 0) &&
+  (rab <= 0 && rbc <= 0 && (rab < 0 || rbc < 0) ==> rac < 0) &&
+  (rab == 0 && rbc == 0 ==> rac == 0) }
+
+lemma lex_trans(a string, i int, ie int, b string, j int, je int, c string, k int, ke int)
+  ensures ltq(lex(a, i, ie, b, j, je), lex(b, j, je, c, k, ke), lex(a, i, ie, c, k, ke))
+  decreases max(ie - i, 0) + max(je - j, 0) + max(ke - k, 0)
+  { if !(i >= ie && j >= je && k >= ke) { lex_trans(a, i+1, ie, b, j+1, je, c, k+1, ke) } }
+
+lemma vcmp_refl(a string, i int)
+  ensures vcmp(a, i, a, i) == 0
+  decreases max(len(a) - i, 0)
+  { if 0 <= i && i < len(a) { lex_refl(a, i, nde(a, i)); vcmp_refl(a, de(a, nde(a, i))) } }
+
+lemma vcmp_antisym(a string, i int, b string, j int)
+  ensures vcmp(a, i, b, j) == -vcmp(b, j, a, i)
+  decreases max(len(a) - i, 0) + max(len(b) - j, 0)
+  { if 0 <= i && i <= len(a) && 0 <= j && j <= len(b) && !(i >= len(a) && j >= len(b)) {
+      lex_antisym(a, i, nde(a, i), b, j, nde(b, j));
+      vcmp_antisym(a, de(a, nde(a, i)), b, de(b, nde(b, j))) } }
+
+// an exhausted operand behaves like any other exhausted operand
+lemma vcmp_exhausted(a string, i int, c string, k int, b string, j int)
+  requires i == len(a) && k == len(c) && 0 <= j && j <= len(b)
+  ensures vcmp(a, i, b, j) == vcmp(c, k, b, j)
+  decreases max(len(b) - j, 0)
+  { if j < len(b) {
+      lex_exhausted(a, i, i, c, k, k, b, j, nde(b, j));
+      vcmp_exhausted(a, i, c, k, b, de(b, nde(b, j))) } }
+
+lemma vcmp_trans(a string, i int, b string, j int, c string, k int)
+  requires 0 <= i && i <= len(a) && 0 <= j && j <= len(b) && 0 <= k && k <= len(c)
+  ensures ltq(vcmp(a, i, b, j), vcmp(b, j, c, k), vcmp(a, i, c, k))
+  decreases (len(a) - i) + (len(b) - j) + (len(c) - k)
+  { if !(i >= len(a) && j >= len(b) && k >= len(c)) {
+      lex_trans(a, i, nde(a, i), b, j, nde(b, j), c, k, nde(c, k));
+      vcmp_trans(a, de(a, nde(a, i)), b, de(b, nde(b, j)), c, de(c, nde(c, k)));
+      if i >= len(a) && k >= len(c) { vcmp_exhausted(a, i, c, k, b, j); vcmp_antisym(c, k, b, j) }
+      if i >= len(a) && j >= len(b) { vcmp_exhausted(a, i, b, j, c, k) }
+      if j >= len(b) && k >= len(c) { vcmp_antisym(a, i, c, k); vcmp_antisym(a, i, b, j); vcmp_exhausted(c, k, b, j, a, i) }
+  } }
+
+// versions that compare equal behave identically against any third version
+lemma vcmp_cong(a string, b string, c string)
+  requires vcmp(a, 0, b, 0) == 0
+  ensures vcmp(a, 0, c, 0) == vcmp(b, 0, c, 0)
+  { vcmp_trans(a, 0, b, 0, c, 0); vcmp_trans(c, 0, b, 0, a, 0); vcmp_trans(b, 0, a, 0, c, 0); vcmp_trans(c, 0, a, 0, b, 0);
+    vcmp_antisym(a, 0, b, 0); vcmp_antisym(a, 0, c, 0); vcmp_antisym(b, 0, c, 0) }
+
+// the same four laws for whole versions (what Compare returns the sign of)
+lemma vspec_refl(a Version)
+  ensures vspec(a, a) == 0
+  { vcmp_refl(a.Version, 0); vcmp_refl(a.Revision, 0) }
+
+lemma vspec_antisym(a Version, b Version)
+  ensures vspec(a, b) == -vspec(b, a)
+  { vcmp_antisym(a.Version, 0, b.Version, 0); vcmp_antisym(a.Revision, 0, b.Revision, 0) }
+
+lemma vspec_trans(a Version, b Version, c Version)
+  ensures ltq(vspec(a, b), vspec(b, c), vspec(a, c))
+  { vcmp_trans(a.Version, 0, b.Version, 0, c.Version, 0); vcmp_trans(a.Revision, 0, b.Revision, 0, c.Revision, 0);
+    vcmp_cong(a.Version, b.Version, c.Version); vcmp_antisym(a.Version, 0, b.Version, 0);
+    vcmp_antisym(b.Version, 0, c.Version, 0); vcmp_antisym(a.Version, 0, c.Version, 0);
+    vcmp_cong(b.Version, a.Version, c.Version); vcmp_cong(c.Version, b.Version, a.Version); vcmp_cong(b.Version, c.Version, a.Version) }
+
+lemma vspec_cong(a Version, b Version, c Version)
+  requires vspec(a, b) == 0
+  ensures vspec(a, c) == vspec(b, c)
+  { vcmp_cong(a.Version, b.Version, c.Version); vcmp_cong(a.Revision, b.Revision, c.Revision) }
+
+// sort adapter
+func Slice.Len
+  ensures result == len(a)
+
+func Slice.Swap
+  requires 0 <= i && i < len(a) && 0 <= j && j < len(a)
+  ensures a[i] == old(a[j]) && a[j] == old(a[i])
+  modifies a[i], a[j]
+
+func Slice.Less
+  requires 0 <= i && i < len(a) && 0 <= j && j < len(a)
+  requires nonul(a[i].Version) && nonul(a[i].Revision) && nonul(a[j].Version) && nonul(a[j].Revision)
+  ensures result == (vspec(a[i], a[j]) < 0)
+
+property C02: Slice.Len, Slice.Swap, Slice.Less, Compare,
+  lemma lex_refl, lemma lex_antisym, lemma lex_exhausted, lemma lex_trans,
+  lemma vcmp_refl, lemma vcmp_antisym, lemma vcmp_exhausted, lemma vcmp_trans, lemma vcmp_cong,
+  lemma vspec_refl, lemma vspec_antisym, lemma vspec_trans, lemma vspec_cong
+
 @*/
